@@ -214,6 +214,7 @@ func ZZVerifC19Layers() {
 // access is detected), both get the expected templates.
 func ZZVerifC19Concurrent() {
 	nd.Schedule(nd.Param("P", 2))
+	nd.Races()
 	nd.MapRaces()
 	zzFixed = true
 	w := zzBuildWorld()
